@@ -25,11 +25,13 @@ class Execution:
 
 
 class Runner:
-    def __init__(self, nthreads, granularity="line", opcode_files=(), horizon=200000):
+    def __init__(self, nthreads, granularity="line", opcode_files=(), horizon=200000, record_labels=False):
         self.n = nthreads
         self.gran = granularity
         self.opcode_files = tuple(opcode_files)
         self.horizon = horizon
+        self.record_labels = record_labels
+        self.labels = []
 
     # -- one controlled execution -------------------------------------------
     def run(self, bodies, prefix):
@@ -47,6 +49,7 @@ class Runner:
         self.steps = 0
         self.pts = [0] * n
         self.abort = None
+        self.labels = []  # (choice index or None, tid, file, line) per scheduling point, when record_labels
         threads = []
         for i in range(n):
             t = threading.Thread(target=self._thread_main, args=(i, bodies[i]), daemon=True)
@@ -76,12 +79,14 @@ class Runner:
         self.running_enabled.append(running_enabled)
         return canonical[c]
 
-    def _point(self, tid):
+    def _point(self, tid, frame=None):
         self.steps += 1
         self.pts[tid] += 1
         if self.steps > self.horizon:
             raise Livelock()
         others = [j for j in range(self.n) if j != tid and not self.finished[j]]
+        if self.record_labels and frame is not None:
+            self.labels.append((len(self.choices) if others else None, tid, frame.f_code.co_filename, frame.f_lineno))
         if not others:
             return
         target = self._choose([tid] + others, True)
@@ -96,9 +101,9 @@ class Runner:
 
         def local(frame, event, arg):
             if event == "line" and not frame.f_trace_opcodes:
-                point(tid)
+                point(tid, frame)
             elif event == "opcode":
-                point(tid)
+                point(tid, frame)
             return local
 
         def glob(frame, event, arg):
@@ -140,9 +145,24 @@ def preemptions(ex, upto):
     return sum(1 for i in range(upto) if ex.running_enabled[i] and ex.choices[i] != 0)
 
 
-def explore(runner, make_bodies, bound, on_execution, max_executions=None, chunk=(0, 1)):
+def visits_first_second_last(labels):
+    """Choice indices whose scheduling point is the 1st, 2nd or last visit of its (thread, file, line)."""
+    per = {}
+    for idx, tid, fn, ln in labels:
+        if idx is not None:
+            per.setdefault((tid, fn, ln), []).append(idx)
+    keep = set()
+    for idxs in per.values():
+        keep.update(idxs[:2])
+        keep.add(idxs[-1])
+    return keep
+
+
+def explore(runner, make_bodies, bound, on_execution, max_executions=None, chunk=(0, 1), eligible=None):
     """Depth-first exploration of all schedules with at most `bound` preemptions.
     make_bodies() -> fresh list of callables.  on_execution(ex) is called for each.
+    eligible(runner) -> set of choice indices of the DEFAULT execution at which the first deviation
+    may happen (used for the location-bounded cold-start mode); None = all.
     chunk=(c, C): only schedules whose FIRST deviation from the default schedule lies in
     the c-th of C equal slices of the default execution's points (the C chunks partition
     the schedule space; the default execution itself is run by every chunk).
@@ -165,7 +185,12 @@ def explore(runner, make_bodies, bound, on_execution, max_executions=None, chunk
         lo, hi = len(prefix), len(ex.choices)
         if not prefix:
             lo, hi = (hi * chunk[0]) // chunk[1], (hi * (chunk[0] + 1)) // chunk[1]
+        # the location filter applies to the placement of the first PREEMPTION (free choices, such as
+        # which thread starts, are always explored)
+        allowed = eligible(runner) if eligible is not None else None
         for i in range(lo, hi):
+            if allowed is not None and ex.running_enabled[i] and pres[i] == 0 and i not in allowed:
+                continue
             cost = pres[i] + (1 if ex.running_enabled[i] else 0)
             if cost > bound:
                 continue
